@@ -680,7 +680,16 @@ Definition step_acc (a : acc) (o : json) : acc :=
         (* a forest with BOTH a duplicate rule id and an ancestor loop: the code checks for duplicates
            while it walks (and reports whichever it meets first), the model after the walk *)
         let loop_or_dup x := String.eqb (jfS "class" x) E_loop || String.eqb (jfS "class" x) E_dup in
-        let amb := sys_amb sy' || op_risky sy0 o || jfB "amb" m ||
+        (* an add that the add hook rejects after the indexed state has indexed the new rule is undone, and
+           the undo leaves empty nodes in the real pattern index; the model returns the state unchanged.  The
+           difference is visible to one kind of operation only: whether an UNSORTABLE event (finding D7) is
+           refused depends on which keys the trie has nodes for.  With hooks installed such an event is not
+           compared when model and code disagree on refusing it. *)
+        let d7_residue := (String.eqb (jfS "op" o) "event" || String.eqb (jfS "op" o) "process") &&
+                          event_risky (jnorm (jget_d "event" o)) &&
+                          existsb (fun kv => st_hooks (l_state (snd kv))) sy0 &&
+                          negb (Bool.eqb (jfB "ok" m) (jfB "ok" obs)) in
+        let amb := d7_residue || sys_amb sy' || op_risky sy0 o || jfB "amb" m ||
                    ((String.eqb (jfS "op" o) "event" || String.eqb (jfS "op" o) "process") &&
                     loop_or_dup m && loop_or_dup obs && negb (String.eqb (jfS "class" m) (jfS "class" obs))) in
         let calls_ok := match jget "cron" o with
